@@ -286,6 +286,22 @@ func init() {
 				}
 			}
 		}
+		if c.Thorough {
+			// the 2^21 varint-width boundary: one block with |cid|+|data| in {2^21-2 .. 2^21+1} next to a small one
+			for i, t := range []int{2097150, 2097151, 2097152, 2097153} {
+				r := c.R.Fork()
+				probe := mkCid(1, 0x55, 0x12, -1, nil)
+				data := r.Bytes(t - probe.ByteLen())
+				blks := []Blk{{mkCid(1, 0x55, 0x12, -1, data), data}, genBlock(r, genOpts{maxData: 40})}
+				roots := []cid.Cid{blks[0].Cid}
+				o := defaultWOpts
+				o.dpad = 7
+				wk := []uint64{0, 3, 4, 2}[i]
+				o.v1 = wk == 3
+				emit(wk, o, roots, [][]Blk{blks}, nil, false, blks, true)
+				c.Count("boundary:2^21")
+			}
+		}
 		for a := 0; a < nArch; a++ {
 			r := c.R.Fork()
 			// ---- F1: flat archives through the store writers
@@ -294,7 +310,6 @@ func init() {
 			if r.Chance(25) {
 				g.maxData = 0 // allow the 2^14 boundary sizes
 			}
-			g.big = c.Thorough && r.Chance(10)
 			blks := genBlocks(r, nb, g)
 			roots := c01Roots(r, blks)
 			h := c01Batches(r, blks)
